@@ -33,18 +33,18 @@ import (
 )
 
 type nodeStats struct {
-	Ops, Genuine, Mutated, Accepted, Rejected, Panics, Execs                           int
-	Duplicates                                                                         int
-	DuplicateHist                                                                      map[string]int
-	MutationHist                                                                       map[string]int
-	OutcomeHist                                                                        map[string]int
-	Monitors                                                                           []string
-	Samples                                                                            []string
-	Notes                                                                              []string
-	Scenarios                                                                          int
-	C08Compared, C08Resets, TwoRoundScenarios, C08InDealsWindow, ReinitProbes, Reinits int
-	CancelledRounds                                                                    int
-	C08Late, C08StampsMoved, PrefilledResults, JSONVariants, KeylessReinits            int
+	Ops, Genuine, Mutated, Accepted, Rejected, Panics, Execs                                int
+	Duplicates                                                                              int
+	DuplicateHist                                                                           map[string]int
+	MutationHist                                                                            map[string]int
+	OutcomeHist                                                                             map[string]int
+	Monitors                                                                                []string
+	Samples                                                                                 []string
+	Notes                                                                                   []string
+	Scenarios                                                                               int
+	C08Compared, C08Resets, TwoRoundScenarios, C08InDealsWindow, ReinitProbes, Reinits      int
+	CancelledRounds                                                                         int
+	C08Late, C08StampsMoved, PrefilledResults, JSONVariants, KeylessReinits, ReinitVariants int
 }
 
 func tsTok(t time.Time) string {
@@ -728,7 +728,9 @@ func (r *nodeRun) scenario(outDir string, n, t int, twoRounds bool) {
 				}
 				r.rng.Shuffle(len(jmuts), func(i, j int) { jmuts[i], jmuts[j] = jmuts[j], jmuts[i] })
 				sort.SliceStable(jmuts, func(i, j int) bool {
-					return !r.tried[m.Event+"/"+jmuts[i].name] && r.tried[m.Event+"/"+jmuts[j].name]
+					ti := r.tried[m.Event+"/"+jmuts[i].name+"/b"] || r.tried[m.Event+"/"+jmuts[i].name+"/a"]
+					tj := r.tried[m.Event+"/"+jmuts[j].name+"/b"] || r.tried[m.Event+"/"+jmuts[j].name+"/a"]
+					return !ti && tj
 				})
 				jsonPer := 8
 				if r.tier == "thorough" {
@@ -738,9 +740,12 @@ func (r *nodeRun) scenario(outDir string, n, t int, twoRounds bool) {
 					jmuts = jmuts[:jsonPer]
 				}
 				r.rng.Shuffle(len(muts), func(i, j int) { muts[i], muts[j] = muts[j], muts[i] })
-				// coverage first: (event, mutation kind) pairs not tried yet in this run come before the others
+				// coverage first: (event, mutation kind, before/after the genuine message) triples not tried yet in this run come
+				// before the others - a variant applied AFTER the message it was made from meets another node state (and whatever
+				// the node remembers of that message) than the same variant applied before it
+				phase := "b"
 				sort.SliceStable(muts, func(i, j int) bool {
-					return !r.tried[m.Event+"/"+muts[i].name] && r.tried[m.Event+"/"+muts[j].name]
+					return !r.tried[m.Event+"/"+muts[i].name+"/b"] && r.tried[m.Event+"/"+muts[j].name+"/b"]
 				})
 				// a message a node addresses to itself (the self-confirmation of the deals phase) is rare and special-cased
 				// in the code: it gets every mutation
@@ -756,7 +761,7 @@ func (r *nodeRun) scenario(outDir string, n, t int, twoRounds bool) {
 						opName = "trymsg"
 					}
 					res := r.feedOp(c, obs, mu.msg, "mut:"+mu.name, opName)
-					r.tried[m.Event+"/"+mu.name] = true
+					r.tried[m.Event+"/"+mu.name+"/"+phase] = true
 					r.st.Mutated++
 					histName := mu.name
 					if strings.HasPrefix(histName, "json-") {
@@ -799,6 +804,13 @@ func (r *nodeRun) scenario(outDir string, n, t int, twoRounds bool) {
 				}
 				gen := r.feed(c, obs, m, "genuine")
 				r.st.Genuine++
+				phase = "a"
+				if half < len(muts) {
+					rest := muts[half:]
+					sort.SliceStable(rest, func(i, j int) bool {
+						return !r.tried[m.Event+"/"+rest[i].name+"/a"] && r.tried[m.Event+"/"+rest[j].name+"/a"]
+					})
+				}
 				for i, mu := range jmuts {
 					if i%2 == 1 {
 						apply(mu)
@@ -1117,6 +1129,40 @@ func (r *nodeRun) reinitObserved(c *cluster, obs *vnode, round string, keyless i
 		if v, err := ctypes.FSMRequestFromMessage(m); err == nil {
 			toks = append(toks, "|", "arg")
 			toks = append(toks, reqToTokens(v)...)
+		}
+	}
+	// before the real file: variants of it as JSON (a field null, of another type, missing, respelled; null participants and
+	// null messages) handed to the node with its empty state - each must end with ok or an error, never with a fault; what it
+	// leaves behind is rolled back (these are not part of the history the model follows)
+	jv := jsonVariants(payload, -1)
+	r.rng.Shuffle(len(jv), func(i, j int) { jv[i], jv[j] = jv[j], jv[i] })
+	lim := 16
+	if r.tier == "thorough" {
+		lim = len(jv)
+	}
+	for i, v := range jv {
+		if i >= lim {
+			break
+		}
+		snap := rawSnap(obs)
+		beforeAll := nodeRender(obs)
+		pm := storage.Message{ID: fmt.Sprintf("reinit-variant-%d", i), DkgRoundID: re.DKGID, Event: "reinit_dkg", Data: v.data, SenderAddr: obs.name}
+		func() {
+			defer func() {
+				if rec := recover(); rec != nil {
+					r.mon(fmt.Sprintf("C18 never_panics: ProcessMessage panicked on a re-initialisation file with %s: %v", v.name, rec))
+				}
+			}()
+			if bz, err := json.Marshal(pm); err == nil {
+				probe("node ProcessMessage(" + truncate(string(bz), 4000) + ")")
+			}
+			obs.svc.ProcessMessage(pm)
+		}()
+		r.st.ReinitVariants++
+		rawRestore(obs, snap)
+		if back := nodeRender(obs); back != beforeAll {
+			r.mon("harness: rollback after a reinit variant did not restore the node state")
+			break
 		}
 	}
 	msg := storage.Message{ID: "reinit", DkgRoundID: re.DKGID, Event: "reinit_dkg", Data: payload, SenderAddr: obs.name}
